@@ -1,5 +1,10 @@
 (* C07 - Account data can be re-borrowed within an instruction after any resize history.
-   Only statements; each is closed by `exact` of a lemma of Account/AccountInfoProofs.v. *)
+   Only statements; each is closed by `exact` of a lemma of Account/AccountInfoProofs.v.
+
+   The account's fields carry a length prefix of width `lw` (`s_lw s` in a state): 4 for the
+   `List<u8>` fields (any number of them), 0 for the single prefix-less `RemainingBytes` field,
+   whose body may be empty (data length = the 8-byte discriminant).  `shape_ok lw v` says just
+   that: 0 < lw, or lw = 0 and at most one field; it is part of `Inv`. *)
 From SF Require Import Base.Prelude Gen.Generated Account.AccountInfo Account.AccountInfoProofs.
 
 (* The valid-pointer range handed to an exclusive wrapper is exactly the allocation: the length
@@ -11,10 +16,13 @@ Proof. exact range_is_alloc. Qed.
 (* Every reachable state satisfies the invariant, and no step of any history panics (neither the
    drop-time pointer check nor the debug assertions before a resize). *)
 Theorem C07_reachable_no_panic :
-  forall v w ops, size_ok (value_size v) ->
-    Inv (value_size v) (fst (run (init_st v w) ops)) /\
-    Forall (fun ob => ob <> [2]) (snd (run (init_st v w) ops)).
-Proof. intros v w ops H. exact (run_inv (value_size v) (init_st v w) ops H (init_inv v w)). Qed.
+  forall lw v w ops, shape_ok lw v -> size_ok (value_size lw v) ->
+    Inv (value_size lw v) (fst (run (init_st lw v w) ops)) /\
+    Forall (fun ob => ob <> [2]) (snd (run (init_st lw v w) ops)).
+Proof.
+  intros lw v w ops Hs H.
+  exact (run_inv (value_size lw v) (init_st lw v w) ops H (init_inv lw v w Hs)).
+Qed.
 
 Theorem C07_step_inv :
   forall orig s o, size_ok orig -> Inv orig s -> Inv orig (fst (step s o)) /\ snd (step s o) <> [2].
@@ -34,24 +42,27 @@ Proof. exact borrow_shared_succeeds. Qed.
 (* Each borrow observes the current value and the current length. *)
 Theorem C07_read_observes_current :
   forall orig s, Inv orig s -> (s_excl s <> None \/ 0 < s_nsh s) ->
-    step s ORead = (s, 0 :: value_size (s_val s) :: observe_value (s_val s)).
+    step s ORead = (s, 0 :: value_size (s_lw s) (s_val s) :: observe_value (s_val s)).
 Proof. exact read_observes_current. Qed.
 
-(* Growth succeeds exactly up to the allowance ... *)
+(* Growth succeeds exactly up to the allowance (the u32 limit of the length prefix only exists
+   where there is a prefix) ... *)
 Theorem C07_growth_within_allowance_ok :
   forall orig s r i f n b,
     size_ok orig -> Inv orig s -> s_excl s = Some r -> nth_error (s_val s) i = Some f ->
-    0 < n -> zlen f + n <= U32_MAX -> value_size (s_val s) + n <= orig + MAX_INC ->
+    0 < n -> (s_lw s = 4 -> zlen f + n <= U32_MAX) ->
+    value_size (s_lw s) (s_val s) + n <= orig + MAX_INC ->
     snd (step s (OPush i n b)) = [0] /\
     s_val (fst (step s (OPush i n b))) = set_nth i (f ++ zrepeat b n) (s_val s) /\
-    h_dlen (s_hdr (fst (step s (OPush i n b)))) = value_size (s_val s) + n.
+    h_dlen (s_hdr (fst (step s (OPush i n b)))) = value_size (s_lw s) (s_val s) + n.
 Proof. exact push_within_limit. Qed.
 
 (* ... and exceeding it is an error at the offending operation, with the state unchanged. *)
 Theorem C07_over_allowance_is_error :
   forall orig s r i f n b,
     size_ok orig -> Inv orig s -> s_excl s = Some r -> nth_error (s_val s) i = Some f ->
-    0 < n -> zlen f + n <= U32_MAX -> orig + MAX_INC < value_size (s_val s) + n ->
+    0 < n -> (s_lw s = 4 -> zlen f + n <= U32_MAX) ->
+    orig + MAX_INC < value_size (s_lw s) (s_val s) + n ->
     step s (OPush i n b) = (s, [1; PE_INVALID_ACCOUNT_DATA_REALLOC]).
 Proof. exact push_over_limit. Qed.
 
@@ -71,8 +82,32 @@ Proof. exact readonly_refused. Qed.
    grow back to the allowance, release) is a reachable history meeting every hypothesis. *)
 Example C07_nonvacuous :
   let v := [zrepeat 1 1385; []] in
-  size_ok (value_size v) /\
-  snd (run (init_st v true)
+  shape_ok 4 v /\ size_ok (value_size 4 v) /\
+  snd (run (init_st 4 v true)
          [OBorrowMut; ORemove 0 0 1385; ORelMut; OBorrowMut; OPush 0 11625 191; ORead; ORelMut])
-  = [[0]; [0]; [0]; [0]; [0]; [0; value_size v + 10240; 11625; checksum (zrepeat 191 11625); 0; 7]; [0]].
-Proof. vm_compute. split; [split; discriminate|reflexivity]. Qed.
+  = [[0]; [0]; [0]; [0]; [0]; [0; value_size 4 v + 10240; 11625; checksum (zrepeat 191 11625); 0; 7]; [0]].
+Proof. split; [left; reflexivity|]. vm_compute. split; [split; discriminate|reflexivity]. Qed.
+
+(* The prefix-less account (`struct K0 { #[unsized_start] rest: RemainingBytes }`) starting with an
+   EMPTY body (data length = the discriminant): borrow, push 5 bytes, release; borrow, remove all 5
+   (body empty again, data length 8), release; borrow and read.  Every borrow and every release
+   succeeds, the lengths seen are 8 -> 13 -> 8, and the last read sees the empty field. *)
+Example C07_prefixless_empty_body :
+  let v := [[]] in
+  shape_ok 0 v /\ size_ok (value_size 0 v) /\ value_size 0 v = 8 /\
+  (let '(s, obs) :=
+     run (init_st 0 v true)
+       [OBorrowMut; OPush 0 5 170; ORead; ORelMut;
+        OBorrowMut; ORemove 0 0 5; ORelMut;
+        OBorrowMut; ORead] in
+   obs = [[0]; [0]; [0; 13; 5; checksum (zrepeat 170 5)]; [0];
+          [0]; [0]; [0];
+          [0]; [0; 8; 0; 7]] /\
+   s_val s = [[]] /\ h_dlen (s_hdr s) = 8 /\ h_delta (s_hdr s) = 0) /\
+  (* the same history through the runner entry: w = 1, k = 0, len0 = 0 *)
+  run_c07 [1; 0; 0;  1; 5; 0; 5; 170; 7; 2;  1; 6; 0; 0; 5; 2;  1; 7]
+  = [1; 0;  1; 0;  4; 0; 13; 5; 42693;  1; 0;  1; 0;  1; 0;  1; 0;  1; 0;  4; 0; 8; 0; 7;  8; 0].
+Proof.
+  split; [apply shape_ok_bytes|]. vm_compute.
+  split; [split; discriminate|]. repeat split; reflexivity.
+Qed.
